@@ -42,7 +42,7 @@ def schemas():
     return out
 
 
-FILES = ["f1.json", "f2.json", "dir2/g1.json", "dir2/g2.json"]
+FILES = ["f1.json", "f2.json", "dir2/g1.json", "dir2/g2.json", ".hid.json", "..x.json"]
 
 
 def rscope(rng, spec, depth, names, p_inc=0.6):
@@ -79,11 +79,13 @@ def generate(rng, tier):
             cases.append({"spec": nested, "files": files, "doc": doc, "kind": "nested-via-include", "fmt": fmt})
     for i in range(n):
         spec = specs[i % len(specs)] if i < 5 * 20 else rng.choice(specs)
-        kind = rng.choice(["ok", "ok", "ok", "ok", "missing", "invalid", "nonstr", "abs", "empty"])
+        kind = rng.choice(["ok", "ok", "ok", "ok", "missing", "invalid", "nonstr", "abs", "empty", "dotted", "dotted"])
         if i % 2:
             spec = dict(spec, order="subs-first")        # the declaration order of include fields and sub-schemas is free
         # names as the document writes them: relative to the field's startdir
         good = ["f1.json", "f2.json", "g1.json", "g2.json", None]
+        if kind == "dotted":
+            good = [".hid.json", "..x.json", "./f1.json", "./.hid.json", "././g1.json", "f2.json", None]
         names = list(good)
         if kind == "missing":
             names.append("nope.json")
@@ -182,8 +184,9 @@ def _setup(c):
         with open(os.path.join(root, fn), "wb") as fp:
             fp.write(b"{ not a document <" if content == "INVALID" else _encode(c, content))
     # both start directories see f*.json and g*.json under the same relative names
-    for fn in ("f1.json", "f2.json"):
-        shutil.copy(os.path.join(root, fn), os.path.join(root, "dir2", fn))
+    for fn in ("f1.json", "f2.json", ".hid.json", "..x.json"):
+        if os.path.exists(os.path.join(root, fn)):
+            shutil.copy(os.path.join(root, fn), os.path.join(root, "dir2", fn))
     for fn in ("g1.json", "g2.json"):
         shutil.copy(os.path.join(root, "dir2", fn), os.path.join(root, fn))
     # the process works in another directory that holds DECOYS under the same relative names: an include field with a
@@ -367,6 +370,9 @@ def oracle(c, obs):
             bad.append("load succeeded although an include file cannot be resolved")
         elif c.get("_unchanged") is False:
             bad.append("failed include resolution changed the configuration")
+        if obs[0] == "err" and isinstance(exp[1], tuple) and exp[1][0] == "validation" and isinstance(obs[1], tuple) and obs[1][0] == "validation" \
+                and obs[1][1] != exp[1][1]:
+            bad.append("path: the error of a rejected include names %r, the offending include field is %r" % (obs[1][1], exp[1][1]))
     return bad
 
 
